@@ -5,11 +5,9 @@ class C31(Spec):
     prop = "C31"
     drv = "drv_c31"
     harness = "h_c31"
-    required_theorems = ("C31.core_iff_touches", "C31.exec_ok_not_blocked_partial", "C31.exec_full_false", "C31.exec_before_activation", "C31.proxied_outer_not_checked", "C31.delay_admits_proxied_blocked", "C31.pool_para_forwarded_unchecked", "C31.pool_rejects_always",
+    required_theorems = ("C31.core_iff_touches", "C31.exec_ok_not_blocked", "C31.old_executor_runs_forwarded_blocked", "C31.exec_before_activation", "C31.proxied_outer_not_checked", "C31.delay_admits_proxied_blocked", "C31.pool_para_forwarded_unchecked", "C31.pool_rejects_always",
                          "C31.spelling_invariant", "C31.realExec_user_evm", "C31.core_spelling_invariant", "C31.old_pool_admits_proxied_blocked",
                          "C31.producer_skips_blocked", "C31.delay_rejects_always")
-    partial = ("C31.exec_ok_not_blocked_partial: the item is not a para-chain forwarded transaction (IsForward2MainChainTx)",)
-    refuted = ("C31.exec_full_false",)
     quick_timeout = 1200
     level_text = ("Lean theorems about the model of the account blacklist: the four-position check "
                   "(checkTxBlockedAccountCore + checkEVMTxBlockedTarget) reports a hit exactly when sender, recipient, real "
@@ -21,7 +19,7 @@ class C31(Spec):
                   "submission (Ethereum sign id, To = exec.proxyExecAddress, real executor evm, payload Para decodes as a "
                   "transaction) whose inner transaction does - full after fix 1445781 in /repo (found by this check; the old pool "
                   "is kept as a regression witness). "
-                  "An EVM position is decided by the modelled GetRealExecName (evm, user.evm.<name>, user.p.<title>.evm, user.p.<title>.user.evm.<name>; not xevm, user.evmx, user.write.evm ...), compared with the real function. Heights are numbers (active iff height >= fork height). Declared, with witness theorems and tie observations: the executor does not look at the OUTER transaction of a proxied item (its payload is never executed; producer and pool do check it); a delayed proxy-exec transaction is cached and only rejected when its delay expires (checkTxs unwraps then); a para node's pool passes forwarded submissions on unchecked (they are meant for the main chain). Refuted (known finding): on a para chain with rpc.parachain.forwardExecs set, executor.checkTx skips the rule for every single transaction of the listed executors. Tie: types.CheckTxBlockedAccount/Immediate on every position x 9 spellings x blacklist entries in the same "
+                  "An EVM position is decided by the modelled GetRealExecName (evm, user.evm.<name>, user.p.<title>.evm, user.p.<title>.user.evm.<name>; not xevm, user.evmx, user.write.evm ...), compared with the real function. Heights are numbers (active iff height >= fork height). Declared, with witness theorems and tie observations: the executor does not look at the OUTER transaction of a proxied item (its payload is never executed; producer and pool do check it); a delayed proxy-exec transaction is cached and only rejected when its delay expires (checkTxs unwraps then); a para node's pool passes forwarded submissions on unchecked (they are meant for the main chain). Para-chain forwarded transactions (IsForward2MainChainTx) are part of the consensus theorem: executor.checkTx applies the rule to them since fix d931b79 (the bypass found by this check is kept as a regression witness). Tie: types.CheckTxBlockedAccount/Immediate on every position x 9 spellings x blacklist entries in the same "
                   "spellings x before/at/after activation on a main-chain and a para-chain configuration; on a real testnode "
                   "EventExecTxList receipts, consensus AddTxsToBlock, mempool EventTx replies, EventAddDelayTx and "
                   "block-embedded delayed transactions; the Lean side parses the spellings itself (base58 + SHA-256d, hex).")
